@@ -50,3 +50,35 @@ Definition step_eqb (x y : step) : bool :=
   end.
 Fixpoint plan_eqb (x y : plan) : bool :=
   match x, y with [], [] => true | a :: t, b :: u => step_eqb a b && plan_eqb t u | _, _ => false end.
+
+(* ---------- comparison up to the commutativity of + and * (the order in which the source writes the factors of a
+   product or the terms of a sum is immaterial; soundness: proofs/C01_eqc.v) ---------- *)
+Fixpoint expr_eqc (x y : expr) : bool :=
+  match x, y with
+  | Col a, Col b => String.eqb a b
+  | Lit a, Lit b => Z.eqb a b
+  | Cast a, Cast b => expr_eqc a b
+  | Add a1 a2, Add b1 b2 | Mul a1 a2, Mul b1 b2 =>
+      (expr_eqc a1 b1 && expr_eqc a2 b2) || (expr_eqc a1 b2 && expr_eqc a2 b1)
+  | Sub a1 a2, Sub b1 b2 | Div a1 a2, Div b1 b2 => expr_eqc a1 b1 && expr_eqc a2 b2
+  | MeanOver a g, MeanOver b h => expr_eqc a b && ostr_eqb g h
+  | AggLen, AggLen => true
+  | AggMean a, AggMean b | AggSum a, AggSum b => expr_eqc a b
+  | AggVar s a, AggVar t b => Bool.eqb s t && expr_eqc a b
+  | AggCov s a1 a2, AggCov t b1 b2 => Bool.eqb s t && expr_eqc a1 b1 && expr_eqc a2 b2
+  | _, _ => false
+  end.
+Fixpoint defs_eqc (x y : list (string * expr)) : bool :=
+  match x, y with
+  | [], [] => true
+  | (a, e) :: t, (b, f) :: u => String.eqb a b && expr_eqc e f && defs_eqc t u
+  | _, _ => false
+  end.
+Definition step_eqc (x y : step) : bool :=
+  match x, y with
+  | WithColumns a, WithColumns b => defs_eqc a b
+  | Aggregate g a, Aggregate h b => ostr_eqb g h && defs_eqc a b
+  | _, _ => false
+  end.
+Fixpoint plan_eqc (x y : plan) : bool :=
+  match x, y with [], [] => true | a :: t, b :: u => step_eqc a b && plan_eqc t u | _, _ => false end.
